@@ -118,6 +118,9 @@ static std::string run_case(Case &c, bool *short_rs = nullptr) {
   if (c.mode & 4) { if (jwt_builder_setcb(b, key_cb, &bkx)) { jwt_builder_free(b); return "setcb-refused"; } }
   else
   if (jwt_builder_setkey(b, ka.attr.empty() ? ka.alg : JWT_ALG_NONE, priv.item)) { jwt_builder_free(b); return "setkey-refused-admissible-pair"; }
+  // mode bit 4 (value 16): the builder is not fresh - it has already produced a token, with other time settings and another claim (since deleted)
+  if ((c.mode & 16) && c.token.empty()) { jwt_builder_enable_iat(b, 1); jwt_builder_time_offset(b, JWT_CLAIM_NBF, 7200); jwt_builder_time_offset(b, JWT_CLAIM_EXP, 10); jwt_value_t ev = val_str("earlier", "token", 1); jwt_builder_claim_set(b, &ev);
+    char *early = jwt_builder_generate(b); free(early); jwt_builder_claim_del(b, "earlier"); jwt_builder_error_clear(b); stats().cls("builders-that-produced-an-earlier-token-with-other-time-settings"); }
   jwt_builder_enable_iat(b, c.iat); jwt_builder_time_offset(b, JWT_CLAIM_NBF, c.nbf_off); jwt_builder_time_offset(b, JWT_CLAIM_EXP, c.exp_off);
   std::string bad;
   auto put = [&](bool header, J &obj) {
@@ -236,7 +239,7 @@ int main(int argc, char **argv) {
     if (v::shrink_exhausted()) return;
     Case c; c.cell = *UNI(0, (int)CELLS.size()); const KA &ka = CELLS[c.cell];
     c.sprov = *UNI(0, 2); c.vprov = *UNI(0, 2); if (gn_unsupported(ka)) c.sprov = c.vprov = 0;
-    c.mode = *UNI(0, 16); c.now = *rc::gen::element<long long>(1700000000LL, 0LL, 1LL, 4102444800LL, 1LL << 33); c.iat = *UNI(0, 2); c.nbf_off = *rc::gen::element<long>(0L, 0L, -5L, 30L, 3600L); c.exp_off = *rc::gen::element<long>(0L, 60L, 3600L, -1L, 1L << 31);
+    c.mode = *UNI(0, 32); c.now = *rc::gen::element<long long>(1700000000LL, 0LL, 1LL, 4102444800LL, 1LL << 33); c.iat = *UNI(0, 2); c.nbf_off = *rc::gen::element<long>(0L, 0L, -5L, 30L, 3600L); c.exp_off = *rc::gen::element<long>(0L, 60L, 3600L, -1L, 1L << 31);
     TreeStats ts; J h = gen_json(0, ts, true); int hd = ts.depth; J cl = gen_json(0, ts, true);
     json_object_del(h.p, "alg");   // the library forces alg; a user alg header is C10's business
     if (c.iat) json_object_del(cl.p, "iat"); if (c.nbf_off > 0) json_object_del(cl.p, "nbf"); if (c.exp_off > 0) json_object_del(cl.p, "exp");
